@@ -443,7 +443,8 @@ Print Assumptions restart_keeps_every_licence.
 (** ... and in the source: the licence store is read through IterAll (one unbounded loop over the
     whole prefix, no break) by AllLightNodeClientLicenses only, whose callers are the genesis
     export, the licences query and the legacy import; the only page request in x/paloma is the one
-    the legacy import passes to x/feegrant. *)
+    the legacy import passes to x/feegrant.  Round 5: the signature-authorisation decorator keeps nothing
+    from one message to the next: all it decides with is declared inside its loop over the messages. *)
 Theorem model_is_of_current_source_round3 :
   Gen.C18.licence_store_users = ["AllLightNodeClientLicenses:IterAll"; "CreateLightNodeClientAccount:Delete";
                                  "GetLightNodeClientLicense:Load"; "SetLightNodeClientLicense:Save"]%string /\
@@ -451,9 +452,45 @@ Theorem model_is_of_current_source_round3 :
   Gen.C18.paloma_pagination_sites = ["GetLegacyLightNodeClients:PageRequest"]%string /\
   Gen.C18.iterall_loops = []%string /\ Gen.C18.iterall_breaks = 0 /\ Gen.C18.iterall_calls = ["IterAllFnc"]%string /\
   Gen.C18.iterallfnc_loops = ["for ; iterator.Valid(); iterator.Next()"]%string /\
-  Gen.C18.iterallfnc_breaks = 0 /\ Gen.C18.iterallfnc_calls = ["Iterator"]%string.
+  Gen.C18.iterallfnc_breaks = 0 /\ Gen.C18.iterallfnc_calls = ["Iterator"]%string /\
+  Gen.C18.ante_declared_before_loop = ["msgs"; "err"]%string /\
+  Gen.C18.ante_declared_per_message = ["m"; "ok"; "creator"; "signers"; "signedByCreator"; "grants"; "err";
+                                       "grantsLkUp"; "grantees"; "v"; "found"]%string.
 Proof. exact source_round3. Qed.
 Print Assumptions model_is_of_current_source_round3.
+
+(** Round 5.  Transactions.  [deliver_tx s ms] is a whole transaction: the signature-authorisation
+    decorator of x/paloma/ante.go on the state before the transaction (EVERY message with metadata
+    needs its creator among its signers, or a signer holding a fee allowance from the creator), then the
+    messages in order on a branch written back only if all succeed.  [tm_signers m]: the signatures the
+    transaction carries for message m (SDK signature verification, trusted).  [hop] = extended
+    operation or transaction.  A transaction changes nothing, or is its plain operations run in order
+    with every message authorised ... *)
+Theorem transaction_all_or_nothing : forall (s : state) (ms : list tmsg),
+  (fst (deliver_tx s ms) = s /\ snd (deliver_tx s ms) <> Ok) \/
+  (snd (deliver_tx s ms) = Ok /\ fst (deliver_tx s ms) = run s (tx_ops ms) /\
+   forall m, In m ms -> authorised s m = Ok).
+Proof. exact deliver_tx_cases. Qed.
+Print Assumptions transaction_all_or_nothing.
+
+(** ... so "activated only by the licensee" holds at transaction level: whatever else a
+    transaction contains and whoever signed the rest, an activation of [who]'s licence in it carries
+    the signature of [who] or of an address [who] granted a fee allowance to. *)
+Theorem activation_only_by_licensee_tx : forall (s : state) (ms : list tmsg) (m : tmsg) (who : key),
+  snd (deliver_tx s ms) = Ok -> In m ms -> tm_body m = TOp (Register who) ->
+  (snd who = false /\ In (fst who) (tm_signers m)) \/
+  (exists x, In x (tm_signers m) /\ grants s (fst who) x = true).
+Proof. exact activation_only_by_licensee_tx_thm. Qed.
+Print Assumptions activation_only_by_licensee_tx.
+
+Theorem escrow_covers_licences_over_transactions : forall (s0 : state) (hs : list hop),
+  xinv s0 -> Forall hop_wf hs ->
+  let s := hrun s0 hs in
+  (forall d, bal s escrow d = lic_sum d (lics s) + gifts s d /\ lic_sum d (lics s) <= bal s escrow d) /\
+  NoDup (lic_ids (lics s)) /\
+  (forall k l, In (k, l) (lics s) -> acct s (fst k) = Some Base /\ 0 < l_amount l).
+Proof. exact escrow_over_transactions_thm. Qed.
+Print Assumptions escrow_covers_licences_over_transactions.
 
 (** The model is the model of the source as it is now: constants, the order of the effect-bearing
     calls in the three keeper functions and in the sale handler, the expressions that fix the
